@@ -150,7 +150,7 @@ func c05Compose(p []kv) string {
 }
 
 func checkC05(c *ev.Ctx) {
-	c.Rule("encoder: complete product 2^4 flags x touch{-1..4} x usage{0,1,2} x ver{0,1,2,65535} x 6 principal lists x jointly varied 5-value string alphabet; decoder: single-field surgeries (delete, 3 case renames, duplicate before/after, retype to null/number/string/array/object/bool-flip) on every field of a generating set of encoder outputs, all flag/touch/ver combinations as texts, a JSON value catalogue, byte-substitution neighbourhood of an encoder output, and ALL strings up to length 5 (thorough 6) over a 13-symbol structural alphabet. non-trivial = Marshal succeeded (round-trip checked) or Unmarshal accepted (oracle checked); distinct by text")
+	c.Rule("encoder: complete product 2^4 flags x touch{-1..4} x usage{0,1,2} x ver{0,1,2,65535} x 6 principal lists x jointly varied 5-value string alphabet; decoder: single-field surgeries (delete, 3 case renames, duplicate before/after, retype to null/number/string/array/object/bool-flip) on every field of a generating set of encoder outputs, all flag/touch/ver combinations as texts, a JSON value catalogue, every ordered pair (and triples) of a 17-text set decoded back to back (history independence), byte-substitution neighbourhood of an encoder output, and ALL strings up to length 5 (thorough 6) over a 13-symbol structural alphabet. non-trivial = Marshal succeeded (round-trip checked) or Unmarshal accepted (oracle checked); distinct by text")
 	c.Assume("valid UTF-8 strings only (encoding/json replaces invalid UTF-8, which the property excludes)", "the independent decode uses encoding/json into map[string]RawMessage")
 	if c.ReplayCase != nil {
 		var k c05Case
@@ -260,6 +260,40 @@ func checkC05(c *ev.Ctx) {
 		}
 	}
 	c.Set("surgeries", surg)
+	// history independence: every ordered pair over {each required field deleted, valid, inconsistent, wrong version, not JSON}
+	// is decoded back to back; the second decode is judged by the same oracle (a decoder that keeps state between calls —
+	// a pooled scratch map, a cached result — shows up here and nowhere else)
+	if len(generating) > 0 {
+		base := c05Pairs(generating[0])
+		var set []string
+		for i := range base {
+			p := append(append([]kv{}, base[:i]...), base[i+1:]...)
+			set = append(set, c05Compose(p))
+		}
+		set = append(set, c05Compose(base))
+		incons := append([]kv{}, base...)
+		incons[7].v, incons[6].v = "true", "true" // headless + hardware key
+		set = append(set, c05Compose(incons))
+		v2 := append([]kv{}, base...)
+		v2[11].v = "2"
+		set = append(set, c05Compose(v2), "not json", `{"ver":1,"transID":"22dde224"}`, "{}")
+		np := 0
+		for _, t1 := range set {
+			for _, t2 := range set {
+				c05Dec(c, t1, "pair/first")
+				c05Dec(c, t2, "pair/second after "+t1[:min(len(t1), 40)])
+				np++
+			}
+			for _, t2 := range set {
+				for _, t3 := range set[:4] {
+					c05Dec(c, t1, "triple/first")
+					c05Dec(c, t2, "triple/second")
+					c05Dec(c, t3, "triple/third")
+				}
+			}
+		}
+		c.Set("decode_pairs", np)
+	}
 	// catalogue of JSON values
 	for _, t := range []string{"", "null", "true", "false", "0", "1", `""`, `"{}"`, "[]", "[{}]", "[null]", "{}", `{"ver":1}`, `{"ver":null}`, `{"a":{"b":{"c":[1,2,{"d":null}]}}}`,
 		"1e400", "-0", "123456789012345678901234567890", `{"ver":1.0}`, `{"ver":1e0}`, `{"ver":"1"}`, "{\"ver\":1}\x00", " {} ", "{}{}", `{"ver":1}}`, "\xef\xbb\xbf{}",
